@@ -311,6 +311,7 @@ Definition process_wager (b : book) (A : wargs) (betamt profit : Z) (bettor fee 
           | None => None
           | Some s =>
               if PREC <=? ws_profit s then None      (* NoMoreLiquidityAvailable *)
+              else if match ws_parts s with [] => true | _ => false end then None   (* no fulfilment at all *)
               else
                 let b' := set_queue (ws_book s) (wa_sel A) (ws_uq s) in
                 Some (b', ws_parts s, [Pay bettor BETFEE fee; Pay bettor POOL (ws_fulfilled s)])
